@@ -878,6 +878,12 @@ def m_then_some(tr, c):
     si, ni = n.vindex("Some"), n.vindex("None")
     tr.emit(f"{tr.lv(Loc(n.discr, d.idxs))} = ({b.expr}) ? {si} : {ni};")
     tr.store(Loc(n.variants[si][1].fields[0], d.idxs), c.args[1])
+    v = c.args[1]
+    if isinstance(v, VLoc) and tr.has_drop(v.loc.node):
+        # the value is consumed: when the condition is false it is dropped here (e.g. a lock guard is released)
+        tr.emit(f"if (!({b.expr})) {{")
+        tr.drop(v.loc)
+        tr.emit("}")
 
 
 @model("bool::then", doc="cond.then(f)")
